@@ -58,6 +58,9 @@ func NewStatesPaletteContainerWithData(length int, data []uint64, pat []BlocksSt
 			bits:   n,
 		}
 	default:
+		if len(pat) > 0 {
+			return directFromSaved[BlocksState](statesCfg{}, block.BitsPerBlock, n, length, data, pat)
+		}
 		p = &globalPalette[BlocksState]{}
 	}
 	return &PaletteContainer[BlocksState]{
@@ -65,6 +68,31 @@ func NewStatesPaletteContainerWithData(length int, data []uint64, pat []BlocksSt
 		config:  statesCfg{},
 		palette: p,
 		data:    NewBitStorage(n, length, data),
+	}
+}
+
+// directFromSaved builds a direct (global ids) container from saved data.
+// The saved form has no global representation: however large the palette is,
+// the data indexes the section's own palette and its width follows the palette
+// size (vanilla PalettedContainer.unpack), so translate every entry.
+func directFromSaved[T State](cfg paletteCfg[T], globalBits, n, length int, data []uint64, pat []T) *PaletteContainer[T] {
+	if pb := bits.Len(uint(len(pat) - 1)); pb != n && calcBitStorageSize(pb, length) == len(data) {
+		n = pb
+	}
+	src := NewBitStorage(n, length, data)
+	direct := NewBitStorage(globalBits, length, nil)
+	for i := 0; i < length; i++ {
+		idx := src.Get(i)
+		if idx >= len(pat) {
+			panic("palette index " + strconv.Itoa(idx) + " out of bounds")
+		}
+		direct.Set(i, int(pat[idx]))
+	}
+	return &PaletteContainer[T]{
+		bits:    globalBits,
+		config:  cfg,
+		palette: &globalPalette[T]{},
+		data:    direct,
 	}
 }
 
@@ -95,6 +123,9 @@ func NewBiomesPaletteContainerWithData(length int, data []uint64, pat []BiomesSt
 			bits:   n,
 		}
 	default:
+		if len(pat) > 0 {
+			return directFromSaved[BiomesState](biomesCfg{}, biome.BitsPerBiome, n, length, data, pat)
+		}
 		p = &globalPalette[BiomesState]{}
 	}
 	return &PaletteContainer[BiomesState]{
